@@ -95,6 +95,13 @@ def jobs_for(pid, rep):
                 if not flush:
                     csvo["flush_on_insert"] = False
                 add(ops, i % 2, {"io": flush, "csv": csvo, "theme": theme, "nostore": not flush})
+        # default configuration, many write-heavy histories (batches, removes by time, updates)
+        for i in range(400 if thorough else 80):
+            g = gen.Gen(rng.randrange(1 << 30), focus={"insert": 5, "insert_multiple": 4, "remove": 5, "update": 3, "drop": 1, "repeat": 0.3}, handles=0.1)
+            add(g.history(g.r.choice([10, 16, 24]), p_read=0.25), i % 4 != 3, {"io": True})
+        for i in range(200 if thorough else 40):
+            g = gen.Gen(rng.randrange(1 << 30), handles=0.0)
+            add(g.batch_scenario() + [{"op": "reopen"}], i % 5 != 4, {"io": True})
         # access mode "w+": the file is truncated when opened (Python's meaning of the mode), never afterwards
         for i in range(40 if thorough else 10):
             g = gen.Gen(rng.randrange(1 << 30), focus={"insert": 6, "remove": 4, "update": 4, "drop": 1, "repeat": 0.3}, handles=0.1)
